@@ -313,3 +313,87 @@ fn entry_broadcast_reaches_exactly_its_listeners()
     kani::cover!(other_type, "other type"); kani::cover!(!other_type, "listened type");
     std::mem::forget(captured); std::mem::forget(world);
 }
+
+pub struct Rr(pub u8);
+impl ReactResource for Rr {}
+pub struct Rs(pub u8);
+impl ReactResource for Rs {}
+
+/// `ReactCommands::entity_event(target, event)` applied: the target's own listener of that event type, then the type-wide
+/// listener, one reaction each, carrying the target and the event's payload; an event of another type reaches nobody.
+#[kani::proof]
+#[kani::stub(core::any::TypeId::of, crate::vh::stub_typeid_of)]
+#[kani::stub(<core::any::TypeId as crate::vh::PEq>::eq, crate::vh::stub_typeid_eq)]
+#[kani::unwind(4)]
+fn entry_entity_event_reaches_exactly_its_listeners()
+{
+    let mut world = World::new();
+    world.m_drop_table::<bevy::model::cell::LeakAll>();
+    let mut cache = ReactCache::default();
+    let own = SystemCommand(ent(41)); let wide = SystemCommand(ent(42));
+    crate::react::react_cache::verif_h::put_any_entity_event::<Ea>(&mut cache, ReactorHandle::Persistent(wide));
+    world.insert_resource(cache);
+    world.insert_resource(crate::ecs::auto_despawn::verif_h::mk_despawner());
+    let mut table = EntityReactors::default();
+    table.insert(EntityReactionType::Event(TypeId::of::<Ea>()), ReactorHandle::Persistent(own));
+    let target = world.spawn(table).id();
+    let mut captured: Vec<ReactionCommand> = Vec::with_capacity(4);
+    world.m_capture(&mut captured);
+    world.m_set_cmd_mode(CmdMode::Immediate);
+    let wp = &mut world as *mut World;
+    let payload: u8 = kani::any();
+    let other_type: bool = kani::any();
+    {
+        let mut rc = ReactCommands{ commands: cmds(wp) };
+        if other_type { rc.entity_event(target, Eb(payload)); } else { rc.entity_event(target, Ea(payload)); }
+    }
+    if other_type { assert!(captured.len() == 0, "C01/C14: an entity event of a type nobody listens to schedules nothing"); }
+    else
+    {
+        assert!(captured.len() == 2, "C14/C01: one call = one dispatch = one reaction per matching listener");
+        match (&captured[0], &captured[1])
+        {
+            (ReactionCommand::EntityEvent{ target: t0, data_entity: d0, reactor: r0 }, ReactionCommand::EntityEvent{ target: t1, data_entity: d1, reactor: r1 }) =>
+            {
+                assert!(*r0 == own && *r1 == wide && *t0 == target && *t1 == target && d0 == d1, "C01: the target's own listener first, then the type-wide one; both carry the target");
+                let (t, p) = crate::react::event_readers::verif_h::entity_event_payload(world.get::<EntityEventData<Ea>>(*d0).unwrap());
+                assert!(t == target && p.0 == payload, "C03: the event's own target and payload");
+            }
+            _ => panic!("C01: an entity event schedules EntityEvent reactions only"),
+        }
+    }
+    kani::cover!(other_type, "other type"); kani::cover!(!other_type, "listened type");
+    std::mem::forget(captured); std::mem::forget(world);
+}
+
+/// `ReactCommands::trigger_resource_mutation::<R>()` applied: exactly R's reactors, nothing for another resource type.
+#[kani::proof]
+#[kani::stub(core::any::TypeId::of, crate::vh::stub_typeid_of)]
+#[kani::stub(<core::any::TypeId as crate::vh::PEq>::eq, crate::vh::stub_typeid_eq)]
+#[kani::unwind(4)]
+fn entry_resource_mutation_reaches_exactly_its_reactors()
+{
+    let mut world = World::new();
+    world.m_drop_table::<bevy::model::cell::LeakAll>();
+    let mut cache = ReactCache::default();
+    let l1 = SystemCommand(ent(41));
+    crate::react::react_cache::verif_h::put_resource::<Rr>(&mut cache, ReactorHandle::Persistent(l1));
+    world.insert_resource(cache);
+    world.insert_resource(crate::ecs::auto_despawn::verif_h::mk_despawner());
+    let mut captured: Vec<ReactionCommand> = Vec::with_capacity(4);
+    world.m_capture(&mut captured);
+    world.m_set_cmd_mode(CmdMode::Immediate);
+    let wp = &mut world as *mut World;
+    let other_type: bool = kani::any();
+    {
+        let mut rc = ReactCommands{ commands: cmds(wp) };
+        if other_type { rc.trigger_resource_mutation::<Rs>(); } else { rc.trigger_resource_mutation::<Rr>(); }
+    }
+    if other_type { assert!(captured.len() == 0, "C01/C14: a mutation of a resource nobody watches schedules nothing"); }
+    else
+    {
+        assert!(captured.len() == 1 && matches!(&captured[0], ReactionCommand::Resource{ reactor } if *reactor == l1), "C14/C01: exactly one reaction per reactor of that resource type");
+    }
+    kani::cover!(other_type, "other type"); kani::cover!(!other_type, "watched type");
+    std::mem::forget(captured); std::mem::forget(world);
+}
